@@ -107,32 +107,39 @@ Proof.
   unfold state_new. destruct (len v =? 0); [discriminate|]. destruct (is_pow2 (len v)) eqn:E; cbn [negb]; [|discriminate].
   destruct (sltb O _ _); [discriminate|]. intros [= <-]. unfold wf. cbn [nq vec]. rewrite (is_pow2_log _ E). unfold len. now rewrite Nat2N.id.
 Qed.
-Lemma measure_comp_wf (st : state) qs d res : measure_comp O of_N eps st qs d = Ok res -> wf (snd res).
+Lemma project_len (v : list C) qs k : List.length (project O v qs k) = List.length v.
 Proof.
-  unfold measure_comp. destruct (measure_args _ _); [discriminate|]. destruct (negb _); [discriminate|].
-  match goal with |- bind (state_new O of_N eps ?c) _ = _ -> _ => destruct (state_new O of_N eps c) as [s1| |] eqn:E end; cbn [bind]; try discriminate.
-  intros [= <-]. cbn [snd]. eapply state_new_wf; eauto.
+  unfold project. rewrite map_length, combine_length. unfold Nrange, len. rewrite map_length, seq_length, Nat2N.id. lia.
+Qed.
+Lemma measure_comp_wf (st : state) qs d res : wf st -> measure_comp O of_N eps st qs d = Ok res -> wf (snd res).
+Proof.
+  intros Hw. unfold measure_comp. destruct (measure_args _ _); [discriminate|]. destruct (negb _); [discriminate|].
+  match goal with |- bind (if snormal O ?x then Ok (mkState ?n ?c) else state_new O of_N eps ?c) _ = _ -> _ =>
+    destruct (snormal O x); [|destruct (state_new O of_N eps c) as [s1| |] eqn:E]; cbn [bind]; try discriminate end.
+  - intros [= <-]. cbn [snd]. unfold wf in *. cbn [nq vec].
+    match goal with |- List.length (if ?b then _ else _) = _ => destruct b end; rewrite ?map_length, project_len; exact Hw.
+  - intros [= <-]. cbn [snd]. eapply state_new_wf; eauto.
 Qed.
 Lemma unitary_multi_wf u chk qs (st s : state) : wf st -> unitary_multi O tol par u chk qs st = Ok s -> wf s.
 Proof. unfold unitary_multi. destruct (chk && _); [discriminate|]. apply apply_each_wf. Qed.
 Lemma measure_wf b (st : state) qs d res : wf st -> measure O of_N eps tol par b st qs d = Ok res -> wf (snd res).
 Proof.
   intros Hw. unfold measure. destruct (measure_args _ _); [discriminate|]. destruct b.
-  - apply measure_comp_wf.
+  - now apply measure_comp_wf.
   - destruct (apply_each O par OpH _ st) as [s1| |] eqn:E1; cbn [bind]; try discriminate.
     destruct (measure_comp O of_N eps s1 _ d) as [r| |] eqn:E2; cbn [bind]; try discriminate.
     destruct (apply_each O par OpH _ (snd r)) as [s2| |] eqn:E3; cbn [bind]; try discriminate.
-    intros [= <-]. cbn [snd]. eapply apply_each_wf; [|exact E3]. eapply measure_comp_wf; eauto.
+    intros [= <-]. cbn [snd]. eapply apply_each_wf; [|exact E3]. eapply measure_comp_wf; [|exact E2]. eapply apply_each_wf; eauto.
   - destruct (apply_each O par OpSdag _ st) as [s0'| |] eqn:E0; cbn [bind]; try discriminate.
     destruct (apply_each O par OpH _ s0') as [s1| |] eqn:E1; cbn [bind]; try discriminate.
     destruct (measure_comp O of_N eps s1 _ d) as [r| |] eqn:E2; cbn [bind]; try discriminate.
     destruct (apply_each O par OpH _ (snd r)) as [s2| |] eqn:E3; cbn [bind]; try discriminate.
     destruct (apply_each O par OpS _ s2) as [s3| |] eqn:E4; cbn [bind]; try discriminate.
-    intros [= <-]. cbn [snd]. eapply apply_each_wf; [|exact E4]. eapply apply_each_wf; [|exact E3]. eapply measure_comp_wf; eauto.
+    intros [= <-]. cbn [snd]. eapply apply_each_wf; [|exact E4]. eapply apply_each_wf; [|exact E3]. eapply measure_comp_wf; [|exact E2]. eapply apply_each_wf; [|exact E1]. eapply apply_each_wf; eauto.
   - destruct (unitary_multi O tol par u true _ st) as [s1| |] eqn:E1; cbn [bind]; try discriminate.
     destruct (measure_comp O of_N eps s1 _ d) as [r| |] eqn:E2; cbn [bind]; try discriminate.
     destruct (unitary_multi O tol par (adjoint O u) false _ (snd r)) as [s2| |] eqn:E3; cbn [bind]; try discriminate.
-    intros [= <-]. cbn [snd]. eapply unitary_multi_wf; [|exact E3]. eapply measure_comp_wf; eauto.
+    intros [= <-]. cbn [snd]. eapply unitary_multi_wf; [|exact E3]. eapply measure_comp_wf; [|exact E2]. eapply unitary_multi_wf; eauto.
 Qed.
 
 (* one gate statement, any control list *)
